@@ -428,6 +428,106 @@ func ghostHeapName(gf *GhostField) string { return "G:" + gf.Owner + "." + gf.Na
 
 func (v *Verifier) ghostImmutable(heap string) bool { return false }
 
+// immutableHeap: heaps of fields declared immutable are not havocked by calls without contract.
+func (v *Verifier) immutableHeap(heap string) bool {
+	if !strings.HasPrefix(heap, "H:") {
+		return false
+	}
+	rest := heap[2:]
+	for _, d := range v.db.Immutable {
+		pfx := shortPkg(d.PkgPath) + "." + d.TypeName + "."
+		if strings.HasPrefix(rest, pfx) {
+			f := rest[len(pfx):]
+			for _, g := range d.Fields {
+				if f == g || strings.HasPrefix(f, g+".") || strings.HasPrefix(f, g+"#") {
+					return true
+				}
+			}
+		}
+	}
+	return false
+}
+
+// checkImmutable: syntactic side condition — a declared-immutable field is stored to only
+// (a) through a fresh allocation of the same function (composite literal under construction) or
+// (b) inside a declared writer function. Returns human-readable violations.
+func (v *Verifier) checkImmutable() []string {
+	var bad []string
+	for _, d := range v.db.Immutable {
+		sp := v.spkgs[d.PkgPath]
+		if sp == nil {
+			continue
+		}
+		isField := map[string]bool{}
+		for _, f := range d.Fields {
+			isField[f] = true
+		}
+		var fns []*ssa.Function
+		var add func(f *ssa.Function)
+		add = func(f *ssa.Function) {
+			fns = append(fns, f)
+			for _, a := range f.AnonFuncs {
+				add(a)
+			}
+		}
+		for _, m := range sp.Members {
+			if f, ok := m.(*ssa.Function); ok {
+				add(f)
+			}
+			if tn, ok := m.(*ssa.Type); ok {
+				for _, t := range []types.Type{tn.Type(), types.NewPointer(tn.Type())} {
+					ms := v.prog.MethodSets.MethodSet(t)
+					for i := 0; i < ms.Len(); i++ {
+						if f := v.prog.MethodValue(ms.At(i)); f != nil && f.Pkg == sp {
+							add(f)
+						}
+					}
+				}
+			}
+		}
+		seen := map[*ssa.Function]bool{}
+		for _, f := range fns {
+			if seen[f] || f.Blocks == nil {
+				continue
+			}
+			seen[f] = true
+			key := strings.TrimPrefix(v.contractKeyFor(f), d.PkgPath+".")
+			writer := false
+			for _, w := range d.Writers {
+				if w == key {
+					writer = true
+				}
+			}
+			for _, b := range f.Blocks {
+				for _, ins := range b.Instrs {
+					st, ok := ins.(*ssa.Store)
+					if !ok {
+						continue
+					}
+					fa, ok := st.Addr.(*ssa.FieldAddr)
+					if !ok {
+						continue
+					}
+					pt := derefType(fa.X.Type())
+					n, ok := pt.(*types.Named)
+					if !ok || n.Obj().Name() != d.TypeName || n.Obj().Pkg() == nil || n.Obj().Pkg().Path() != d.PkgPath {
+						continue
+					}
+					fname := pt.Underlying().(*types.Struct).Field(fa.Field).Name()
+					if !isField[fname] {
+						continue
+					}
+					if _, fresh := fa.X.(*ssa.Alloc); fresh || writer {
+						continue
+					}
+					bad = append(bad, fmt.Sprintf("%s.%s is declared immutable but stored to in %s (%s)", d.TypeName, fname, key, v.fset.Position(st.Pos())))
+				}
+			}
+		}
+	}
+	return bad
+}
+
 func (e *Exec) ghostHeapSort(gf *GhostField, ownerSort string) string {
 	return arraySort(ownerSort, e.ghostValSort(gf))
 }
